@@ -52,16 +52,35 @@ def snap(x, _depth=0):
     return ("value", repr(x))
 
 
+_NA = "<not exposed under a known name>"
+
+
+def _get(o, *names):
+    """First of the given attributes the object has.  Public properties come first; the private names are those of
+    the tree as delivered.  A refactoring that renames a private attribute makes that part of the snapshot blind
+    (equal before and after) instead of crashing the monitor; history independence is then still judged behaviourally."""
+    for n in names:
+        try:
+            return getattr(o, n)
+        except AttributeError:
+            continue
+    return _NA
+
+
 def snap_grid(g):
     axes = []
     for name, ax in g.axes.items():
-        axes.append((name, tuple(ax.coords.items()), ax.boundary, repr(ax.fill_value), tuple(sorted(ax._default_shifts.items())),
-                     getattr(ax, "_periodic", None)))
-    fc = repr(getattr(g, "_face_connections", None))
+        shifts = _get(ax, "default_shifts", "_default_shifts")
+        axes.append((name, tuple(ax.coords.items()), _get(ax, "boundary", "_boundary"), repr(_get(ax, "fill_value", "_fill_value")),
+                     tuple(sorted(shifts.items())) if isinstance(shifts, dict) else repr(shifts), _get(ax, "periodic", "_periodic")))
+    fc = repr(_get(g, "_face_connections"))
     mets = []
-    for k, lst in getattr(g, "_metrics", {}).items():
-        mets.append((tuple(sorted(k)), tuple(snap(m) for m in lst)))
-    return ("Grid", tuple(axes), fc, getattr(g, "_facedim", None), tuple(sorted(mets, key=repr)), snap(g._ds))
+    reg = _get(g, "_metrics")
+    if isinstance(reg, dict):
+        for k, lst in reg.items():
+            mets.append((tuple(sorted(k)), tuple(snap(m) for m in lst) if isinstance(lst, (list, tuple)) else snap(lst)))
+    ds = _get(g, "_ds")
+    return ("Grid", tuple(axes), fc, _get(g, "_facedim"), tuple(sorted(mets, key=repr)), snap(ds) if ds is not _NA else _NA)
 
 
 def diff(a, b, path="root"):
